@@ -143,6 +143,11 @@ class World:
             kids.update(fget_s(sb, n))
         for n in range(1, ns + 1):
             bases = tuple(self.spec[m] for m in fget_s(sb, n))
+            if n == job.get('empty_spec'):
+                # the shared empty declaration (a process-wide singleton)
+                from zope.interface.declarations import _empty
+                self.spec[n] = _empty
+                continue
             if job.get('leaf_impl') and n == ns and n not in kids:
                 K = type('K%d' % n, (object,), {})
                 s = implementedBy(K)
